@@ -39,15 +39,15 @@ theorem drop_append_len {γ : Type} (X Y : List γ) (n : Nat) (h : X.length = n)
     dump (`A`): the cut keeps the last of `P` (moved to dump 0) and all of `W`. -/
 theorem cutEv_split (N : Nat) (hN : 0 < N) (tr : Option (V → V)) (P W A : List (Int × V))
     (hP : ∀ e ∈ P, e.1 < 0) (hW : ∀ e ∈ W, 0 ≤ e.1 ∧ e.1 < (N : Int)) (hA : ∀ e ∈ A, (N : Int) ≤ e.1) :
-    s2cCutEv ((P ++ W ++ A).map (·.1)) ((P ++ W ++ A).map (·.2)) N tr =
-      let f : V → V := match tr with | some f => f | none => id
+    s2cCutEv ((P ++ W ++ A).map Prod.fst) ((P ++ W ++ A).map Prod.snd) N tr =
+      let f : V → V := trFun tr
       match P.getLast? with
       | none => (W.map (fun e => f e.2), W.map (fun e => e.1.toNat))
       | some pl => (f pl.2 :: W.map (fun e => f e.2), 0 :: W.map (fun e => e.1.toNat)) := by
   have hmapf : ∀ (l : List V), (match tr with | some f => l.map f | none => l) =
       l.map (match tr with | some f => f | none => id) := by
     intro l; cases tr <;> simp
-  have hWA : ∀ y ∈ (W ++ A).map (·.1), decide (y ≤ (-1 : Int)) = false := by
+  have hWA : ∀ y ∈ (W ++ A).map Prod.fst, decide (y ≤ (-1 : Int)) = false := by
     intro y hy
     simp only [List.mem_map, List.mem_append] at hy
     obtain ⟨e, he, rfl⟩ := hy
@@ -55,12 +55,12 @@ theorem cutEv_split (N : Nat) (hN : 0 < N) (tr : Option (V → V)) (P W A : List
     rcases he with he | he
     · have := (hW e he).1; omega
     · have := hA e he; omega
-  have hWlt : ∀ x ∈ W.map (·.1), decide (x < (N : Int)) = true := by
+  have hWlt : ∀ x ∈ W.map Prod.fst, decide (x < (N : Int)) = true := by
     intro x hx
     simp only [List.mem_map] at hx
     obtain ⟨e, he, rfl⟩ := hx
     simpa using (hW e he).2
-  have hAge : ∀ y ∈ A.map (·.1), decide (y < (N : Int)) = false := by
+  have hAge : ∀ y ∈ A.map Prod.fst, decide (y < (N : Int)) = false := by
     intro y hy
     simp only [List.mem_map] at hy
     obtain ⟨e, he, rfl⟩ := hy
@@ -68,47 +68,47 @@ theorem cutEv_split (N : Nat) (hN : 0 < N) (tr : Option (V → V)) (P W A : List
     simp only [decide_eq_false_iff_not]; omega
   rcases List.eq_nil_or_concat P with hPnil | ⟨P', pl, hPc⟩
   · subst hPnil
-    have hfp0 : searchsortedRight (([] ++ W ++ A).map (·.1)) (-1) = 0 := by
+    have hfp0 : searchsortedRight (([] ++ W ++ A).map Prod.fst) (-1) = 0 := by
       simp only [searchsortedRight, List.nil_append]
-      rw [show (W ++ A).map (·.1) = [] ++ (W ++ A).map (·.1) by simp]
+      rw [show (W ++ A).map Prod.fst = [] ++ (W ++ A).map Prod.fst by simp]
       rw [takeWhile_split _ [] _ (by simp) hWA]; rfl
-    have hopl : searchsortedLeft (([] ++ W ++ A).map (·.1)) (N : Int) = W.length := by
+    have hopl : searchsortedLeft (([] ++ W ++ A).map Prod.fst) (N : Int) = W.length := by
       simp only [searchsortedLeft, List.nil_append, List.map_append]
       rw [takeWhile_split _ _ _ hWlt hAge]; simp
-    simp only [s2cCutEv, hfp0, Nat.lt_irrefl, gt_iff_lt, if_false, hopl, pySlice, List.getLast?_nil, hmapf]
+    simp only [s2cCutEv, hfp0, Nat.lt_irrefl, gt_iff_lt, if_false, hopl, pySlice, List.getLast?_nil]
     simp only [List.nil_append, List.map_append, List.drop_zero]
     rw [take_append_len _ _ _ (by simp), take_append_len _ _ _ (by simp)]
-    simp [List.map_map, Function.comp]
+    cases tr <;> simp [List.map_map, Function.comp, trFun]
   · subst hPc
-    have hP'neg : ∀ x ∈ P'.map (·.1), decide (x ≤ (-1 : Int)) = true := by
+    have hP'neg : ∀ x ∈ P'.map Prod.fst, decide (x ≤ (-1 : Int)) = true := by
       intro x hx
       simp only [List.mem_map] at hx
       obtain ⟨e, he, rfl⟩ := hx
       have := hP e (by simp [he])
       simp only [decide_eq_true_eq]; omega
     have hplneg : pl.1 < 0 := hP pl (by simp)
-    have hfp0 : searchsortedRight ((P'.concat pl ++ W ++ A).map (·.1)) (-1) = P'.length + 1 := by
+    have hfp0 : searchsortedRight ((P'.concat pl ++ W ++ A).map Prod.fst) (-1) = P'.length + 1 := by
       simp only [searchsortedRight, List.concat_eq_append, List.append_assoc, List.map_append]
       rw [← List.append_assoc]
-      have hX : ∀ x ∈ List.map (·.1) P' ++ List.map (·.1) [pl], decide (x ≤ (-1 : Int)) = true := by
+      have hX : ∀ x ∈ List.map Prod.fst P' ++ List.map Prod.fst [pl], decide (x ≤ (-1 : Int)) = true := by
         intro x hx
         simp only [List.mem_append, List.map_cons, List.map_nil, List.mem_singleton] at hx
         rcases hx with hx | rfl
         · exact hP'neg x hx
         · simp only [decide_eq_true_eq]; omega
-      have hY : ∀ y ∈ List.map (·.1) W ++ List.map (·.1) A, decide (y ≤ (-1 : Int)) = false := by
+      have hY : ∀ y ∈ List.map Prod.fst W ++ List.map Prod.fst A, decide (y ≤ (-1 : Int)) = false := by
         intro y hy
         apply hWA
         simpa using hy
       rw [takeWhile_split _ _ _ hX hY]
       simp
-    have hset : ((P'.concat pl ++ W ++ A).map (·.1)).set P'.length 0 =
-        (P'.map (·.1) ++ 0 :: W.map (·.1)) ++ A.map (·.1) := by
+    have hset : ((P'.concat pl ++ W ++ A).map Prod.fst).set P'.length 0 =
+        (P'.map Prod.fst ++ 0 :: W.map Prod.fst) ++ A.map Prod.fst := by
       simp only [List.concat_eq_append, List.append_assoc, List.map_append, List.map_cons, List.map_nil,
         List.cons_append, List.nil_append]
-      rw [show P'.length = (P'.map (·.1)).length by simp, List.set_append_right _ _ (Nat.le_refl _)]
+      rw [show P'.length = (P'.map Prod.fst).length by simp, List.set_append_right _ _ (Nat.le_refl _)]
       simp
-    have hXlt : ∀ x ∈ P'.map (·.1) ++ 0 :: W.map (·.1), decide (x < (N : Int)) = true := by
+    have hXlt : ∀ x ∈ P'.map Prod.fst ++ 0 :: W.map Prod.fst, decide (x < (N : Int)) = true := by
       intro x hx
       simp only [List.mem_append, List.mem_cons] at hx
       rcases hx with hx | rfl | hx
@@ -116,22 +116,104 @@ theorem cutEv_split (N : Nat) (hN : 0 < N) (tr : Option (V → V)) (P W A : List
         simp only [decide_eq_true_eq] at this ⊢; omega
       · simp only [decide_eq_true_eq]; omega
       · exact hWlt x hx
-    have hopl : searchsortedLeft (((P'.concat pl ++ W ++ A).map (·.1)).set P'.length 0) (N : Int) =
+    have hopl : searchsortedLeft (((P'.concat pl ++ W ++ A).map Prod.fst).set P'.length 0) (N : Int) =
         P'.length + 1 + W.length := by
       rw [hset]
       simp only [searchsortedLeft]
       rw [takeWhile_split _ _ _ hXlt hAge]
       simp; omega
     have hpos : P'.length + 1 > 0 := by omega
-    simp only [s2cCutEv, hfp0, hpos, if_true, Nat.add_sub_cancel, hopl, pySlice, hmapf]
+    simp only [s2cCutEv, hfp0, hpos, if_true, Nat.add_sub_cancel, hopl, pySlice]
     rw [hset]
     have hgl : (P'.concat pl).getLast? = some pl := by simp
     simp only [hgl]
-    have hvals : (P'.concat pl ++ W ++ A).map (·.2) = (P'.map (·.2) ++ pl.2 :: W.map (·.2)) ++ A.map (·.2) := by
+    have hvals : (P'.concat pl ++ W ++ A).map Prod.snd = (P'.map Prod.snd ++ pl.2 :: W.map Prod.snd) ++ A.map Prod.snd := by
       simp
     rw [hvals]
     rw [take_append_len _ _ _ (by simp; omega), take_append_len _ _ _ (by simp; omega)]
     rw [drop_append_len _ _ _ (by simp), drop_append_len _ _ _ (by simp)]
-    simp [List.map_map, Function.comp]
+    cases tr <;> simp [List.map_map, Function.comp, trFun]
+
+/-! ### searchsorted facts -/
+
+theorem takeWhile_len_mono {γ : Type} (p q : γ → Bool) (h : ∀ x, p x = true → q x = true) :
+    ∀ (l : List γ), (l.takeWhile p).length ≤ (l.takeWhile q).length := by
+  intro l
+  induction l with
+  | nil => simp
+  | cons a t ih =>
+    simp only [List.takeWhile]
+    cases hp : p a with
+    | false => simp
+    | true => simp [h a hp]; exact ih
+
+theorem dumpIndex_mono (ends : List Int) (period t t' : Int) (h : t ≤ t') :
+    dumpIndex ends period t ≤ dumpIndex ends period t' := by
+  simp only [dumpIndex, searchsortedLeft]
+  have := takeWhile_len_mono (fun x : Int => decide (x < t)) (fun x : Int => decide (x < t'))
+    (by intro x hx; simp only [decide_eq_true_eq] at hx ⊢; omega) ((ends.headD 0 - period) :: ends)
+  omega
+
+theorem filter_eq_takeWhile_sorted (t : Int) : ∀ (E : List Int), E.Pairwise (· ≤ ·) →
+    E.filter (· < t) = E.takeWhile (· < t) := by
+  intro E
+  induction E with
+  | nil => intro _; rfl
+  | cons a r ih =>
+    intro hs
+    have hs' := List.pairwise_cons.mp hs
+    by_cases ha : a < t
+    · simp only [List.filter_cons, List.takeWhile_cons, ha, decide_true, if_true]
+      rw [ih hs'.2]
+    · simp only [List.filter_cons, List.takeWhile_cons, ha, decide_false, Bool.false_eq_true, if_false]
+      apply List.filter_eq_nil_iff.mpr
+      intro x hx
+      have := hs'.1 x hx
+      simp only [decide_eq_true_eq]; omega
+
+theorem dumpOf_eq_dumpIndex (ends : List Int) (period t : Int)
+    (hE : ((ends.headD 0 - period) :: ends).Pairwise (· ≤ ·)) :
+    dumpOf ends period t = dumpIndex ends period t := by
+  simp only [dumpOf, dumpIndex, searchsortedLeft]
+  rw [filter_eq_takeWhile_sorted t _ hE]
+
+theorem pairwise_zip_fst {γ δ : Type} (R : γ → γ → Prop) : ∀ (a : List γ) (b : List δ), a.Pairwise R →
+    (a.zip b).Pairwise (fun x y => R x.1 y.1) := by
+  intro a
+  induction a with
+  | nil => intro b _; simp
+  | cons x t ih =>
+    intro b h
+    cases b with
+    | nil => simp
+    | cons y u =>
+      have h' := List.pairwise_cons.mp h
+      simp only [List.zip_cons_cons]
+      refine List.pairwise_cons.mpr ⟨?_, ih u h'.2⟩
+      intro z hz
+      exact h'.1 z.1 (List.of_mem_zip hz).1
+
+theorem split_lt {γ : Type} (b : Int) : ∀ (L : List (Int × γ)), L.Pairwise (fun x y => x.1 ≤ y.1) →
+    ∃ X Y, L = X ++ Y ∧ (∀ x ∈ X, x.1 < b) ∧ (∀ y ∈ Y, b ≤ y.1) := by
+  intro L
+  induction L with
+  | nil => intro _; exact ⟨[], [], rfl, by simp, by simp⟩
+  | cons e t ih =>
+    intro hs
+    have hs' := List.pairwise_cons.mp hs
+    by_cases he : e.1 < b
+    · obtain ⟨X, Y, hL, hX, hY⟩ := ih hs'.2
+      refine ⟨e :: X, Y, by simp [hL], ?_, hY⟩
+      intro x hx
+      simp only [List.mem_cons] at hx
+      rcases hx with rfl | hx
+      · exact he
+      · exact hX x hx
+    · refine ⟨[], e :: t, rfl, by simp, ?_⟩
+      intro y hy
+      simp only [List.mem_cons] at hy
+      rcases hy with rfl | hy
+      · omega
+      · have := hs'.1 y hy; omega
 
 end Categorical
